@@ -258,3 +258,19 @@ def add_traits(prog, rng, backend, n=(1, 2)):
         m.owner = host
         host.methods.append(m)
     return count
+
+
+def add_zst_error(prog, rng):
+    """A field-less struct (`pub struct VfZst;`), legal only as a Result/Option payload (feature_tests has `MyZst`), used as the Err
+    (and sometimes the Ok) type of methods on an existing opaque. Tool-level checks only: the runtime legs have no model for it."""
+    opaques = [t for t in prog.types() if t.kind == "opaque" and not t.lifetimes]
+    if not opaques:
+        return False
+    host = rng.choice(opaques)
+    mod = [m for m in prog.modules if host in m.items][0]
+    mod.extra_src += "    #[diplomat::attr(auto, error)]\n    pub struct VfZst;\n"
+    for k, ret in enumerate([("raw", "Result<(), VfZst>"), ("raw", "Result<%s, VfZst>" % rng.choice(["u8", "f64", "bool", "i32"]))][:rng.randint(1, 2)]):
+        m = spec.Method("zst%d" % k, rng.choice([("ref", None), None]), [("n", ("prim", "u8"))] if rng.random() < 0.5 else [], ret)
+        m.owner = host
+        host.methods.append(m)
+    return True
